@@ -25,6 +25,7 @@ ENTRY = {
                    "after a successful Hijack. One differential corner is excluded and counted: first body bytes arriving through ReadFrom at a writer that "
                    "accepts zero bytes (the fallback necessarily forwards a header before the failing write, the fast path cannot); both runs are still "
                    "judged against their own ground truth. Env knob C14_NO_READFROM=1 (sensitivity experiments only) removes ReadFrom/Stream from the generators.",
+        level_more='Later additions: a second router entered with c.Writer() (stacked recorders), helper calls on contexts from CloneWith and Router.Lookup, all redirect codes 298-310, multi-valued and foreign-owned Content-Type presets, failed Hijack, and a failed flush that must not be reported as success when the underlying writer offers FlushError.',
         rule="cases: (writer family, byte limit, capability-error flag, call sequence with arguments) and (writer family, limit, helper call); non-trivial = the "
              "sequence contains a ReadFrom, or a write the underlying writer only partly accepted, or a failing source, or a header call after an accepted body "
              "byte (helpers: Stream, or a partly accepted body); distinct by the JSON of the case",
